@@ -13,6 +13,7 @@ recipe = {
   'ops': [{'op': 'refine', 'cols': [...], 'bisect': False|True|'x'|'y'}, {'op': 'rotate', 'angle': a},
           {'op': 'translate', 'shift': [x, y, z]}, {'op': 'refine_layers', 'layers': [...], 'factor': k},
           {'op': 'delete', 'cols': [...]}, {'op': 'decompose'[, 'cols': [...]]}, {'op': 'split', 'col': i, 'node': j}, {'op': 'triangulate', 'col': i}],
+          {'op': 'relayer', 'dz': [...], 'top': offset}   # copy_layers_from a layer structure starting `offset` above the present top
           a refine op may give {'region': {'shape': ..., 'seed': i, ...}} instead of 'cols' (see region_columns) and
           'edge_pick': [i, ...] choosing bisect_edge_columns among the columns of the transition region (transition_candidates)
   'surfaces': [[col, layer, frac], ...]   # column index (mod n), underground layer index (mod n), position in the layer:
@@ -422,6 +423,13 @@ def apply_op(g, op, rc=None):
         und = g.layerlist[1:]
         lays = list(dict((l.name, l) for l in [und[i % len(und)] for i in op['layers']]).values())
         g.refine_layers(lays, factor=op.get('factor', 2), chars=chars)
+    elif k == 'relayer':
+        # another layer structure, whose top may lie above or below the present one: columns that still carry their
+        # default surface then have it inside a layer (truncated) or above the new top (extended)
+        import mulgrids
+        other = mulgrids.mulgrid().rectangular([10.], [10.], list(op['dz']), convention=g.convention,
+                                               origin=[0., 0., g.layerlist[0].bottom + op.get('top', 0.)])
+        g.copy_layers_from(other)
     elif k == 'decompose':
         if op.get('cols') or op.get('convex_only'):
             cols = decompose_targets(g, op, rc)
@@ -542,7 +550,7 @@ def wells(draw, max_n=3):
 @st.composite
 def geometry(draw, max_nx=6, max_ny=6, max_nz=6, shipped=True, ops=True, with_surfaces=True, with_wells=False,
              max_shipped_cols=60, justify=('r',), block_orders=(None, 'layer_column', 'dmplex'),
-             conventions=(0, 1, 2, 3), header=False, tiny_ok=True, min_nz=1):
+             conventions=(0, 1, 2, 3), header=False, tiny_ok=True, min_nz=1, relayer=False):
     kind = draw(st.sampled_from(['rect', 'rect', 'rect'] + (['shipped'] if shipped else []) + (['tiny'] if tiny_ok else [])))
     rc = {}
     if kind == 'rect':
@@ -581,6 +589,9 @@ def geometry(draw, max_nx=6, max_ny=6, max_nz=6, shipped=True, ops=True, with_su
             else:
                 rc['ops'].append({'op': 'refine_layers', 'layers': draw(st.lists(st.integers(0, 20), min_size=1, max_size=2)),
                                   'factor': draw(st.sampled_from([2, 3]))})
+    if relayer and draw(st.integers(0, 4)) == 0:
+        rc['ops'].append({'op': 'relayer', 'dz': draw(st.lists(st.sampled_from([2., 5., 10., 12.5]), min_size=1, max_size=5)),
+                          'top': draw(st.sampled_from([0., 5., 12., -5., -12., 2.5]))})
     if with_surfaces: rc['surfaces'] = draw(surfaces())
     if with_wells: rc['wells'] = draw(wells())
     if header:
